@@ -14,7 +14,7 @@ CFG = dict(
                'bytes or never reached) and does not fire in batched mode for WALs below the 8 KB write buffer; Parquet/JSON byte formats are not '
                'modelled (C12). Clean = graceful shutdown (save_all) before reopen in async mode. A restart is not a maintenance step: the live '
                'engine remembers the arity of an emptied relation, a restarted one does not (noted in Proofs/StoreEquiv.v).',
-    bin='c14', n_quick=150, n_thorough=3000,
+    bin='c14', n_quick=150, n_thorough=750,
     corr_name='Model/StorePersist.v vs StorageEngine/FilePersist (contents, batch files, WAL lines)',
     rule='corpus: one fixed history (flushes, compaction over deletes and duplicates, save, graceful restart, drop+reopen) under all 24 '
          'configurations buffer_size {1,2,3,10000} x max_wal {0,1} x {immediate,batched,async}; random: histories of 2-25 steps (insert batches '
